@@ -38,7 +38,7 @@ const prelude = `(declare-sort Str 0)
 (declare-fun implements (Int Int) Bool)
 (declare-fun strlen (Str) Int)
 (declare-const str_empty Str)
-(assert (forall ((s Str)) (! (>= (strlen s) 0) :pattern ((strlen s)))))
+(assert (forall ((s Str)) (! (and (>= (strlen s) 0) (<= (strlen s) 72057594037927936)) :pattern ((strlen s)))))
 (assert (forall ((s Str)) (! (= (= (strlen s) 0) (= s str_empty)) :pattern ((strlen s)))))
 `
 
